@@ -1564,8 +1564,9 @@ func (x *VC) appendVals(s, t *Val, resT types.Type, reach string) *Val {
 	if x.mode == "bv" {
 		x.refuse("general append in bv mode")
 	}
-	x.fact(fmt.Sprintf("(forall ((i %s)) (! (=> (and (<= 0 i) (< i %s)) (= (select %s (+ %s i)) (select %s (+ %s i)))) :pattern ((select %s (+ %s i)))))", is, s.Len, arr, s.Off, s.Arr, s.Off, arr, s.Off))
-	x.fact(fmt.Sprintf("(forall ((i %s)) (! (=> (and (<= 0 i) (< i %s)) (= (select %s (+ %s %s i)) (select %s (+ %s i)))) :pattern ((select %s (+ %s i)))))", is, t.Len, arr, s.Off, s.Len, t.Arr, t.Off, t.Arr, t.Off))
+	// absolute-index form: (select arr a) is the trigger, so element-quantified specifications match
+	x.fact(fmt.Sprintf("(forall ((a %s)) (! (=> (and (<= %s a) (< a (+ %s %s))) (= (select %s a) (select %s a))) :pattern ((select %s a))))", is, s.Off, s.Off, s.Len, arr, s.Arr, arr))
+	x.fact(fmt.Sprintf("(forall ((a %s)) (! (=> (and (<= (+ %s %s) a) (< a (+ %s %s %s))) (= (select %s a) (select %s (+ %s (- a %s %s))))) :pattern ((select %s a))))", is, s.Off, s.Len, s.Off, s.Len, t.Len, arr, t.Arr, t.Off, s.Off, s.Len, arr))
 	r := &Val{K: KSlice, Arr: arr, Off: s.Off, Len: x.define("applen", is, x.addS(s.Len, t.Len)), ES: s.ES, GT: resT}
 	x.fact("(<= "+r.Len+" 4611686018427387904)")
 	return r
